@@ -437,7 +437,7 @@ pub fn shrink_cfg(cfg: &RunCfg, ops: &[Op], mode: &str, prop: &str, clause: &str
     let mut cur_ops = ops.to_vec();
     let node_of = |op: &Op| -> Option<u8> {
         match op {
-            Op::Write { node, .. } | Op::Read { node, .. } | Op::SetPsk { node, .. } | Op::Convert { node, .. } | Op::SetRecvNonce { node, .. } | Op::SetSendNonce { node, .. } | Op::Rekey { node, .. } | Op::Drop { node, .. } | Op::Dup { node, .. } | Op::Delay { node, .. } | Op::Query { node } => Some(*node),
+            Op::Write { node, .. } | Op::Read { node, .. } | Op::SetPsk { node, .. } | Op::Convert { node, .. } | Op::SetRecvNonce { node, .. } | Op::SetSendNonce { node, .. } | Op::Rekey { node, .. } | Op::Drop { node, .. } | Op::Dup { node, .. } | Op::Delay { node, .. } | Op::Query { node } | Op::Keygen { node } => Some(*node),
             Op::Epilogue => None,
         }
     };
